@@ -125,11 +125,28 @@ def build_parent(spec, tmpdir):
     data = make_pixels(spec['data_seed'], rows, cols, pt, table)
     if spec['source'] == 'flat':
         rdr = FlatSICDReader(meta, data)
+    elif spec['source'] == 'oriented':
+        # a sensor-format style parent: the stored layout differs from the image layout by axis reversals / a transposition
+        from sarpy.io.complex.base import SICDTypeReader
+        from sarpy.io.general.data_segment import NumpyArraySegment
+        from sarpy.io.general.format_function import ComplexFormatFunction
+        rdt = 'float32' if pt == 'RE32F_IM32F' else 'int16'
+        a = numpy.stack([data.real, data.imag], axis=-1).astype(rdt)
+        tr = spec.get('transpose')
+        if tr:
+            a = a.transpose((1, 0, 2))
+        rev = tuple(spec.get('reverse') or ())
+        a = numpy.ascontiguousarray(a[tuple(slice(None, None, -1) if i in rev else slice(None) for i in range(3))])
+        seg = NumpyArraySegment(a, formatted_dtype='complex64', formatted_shape=(rows, cols), reverse_axes=rev or None,
+                                transpose_axes=(1, 0, 2) if tr else None,
+                                format_function=ComplexFormatFunction(rdt, order='IQ', band_dimension=2), mode='r')
+        rdr = SICDTypeReader(seg, meta)
     else:
         sargen.write_sicd(meta, data, 'path', tmpdir, row_limit=spec.get('row_limit'), name=spec['name'])
         rdr = open_complex(os.path.join(tmpdir, spec['name']))
     full = rdr.read(squeeze=False)
-    raw = rdr.read_raw(squeeze=False)
+    # for an oriented parent the stored layout is not image-aligned: the raw window comparison does not apply
+    raw = rdr.read_raw(squeeze=False) if spec['source'] != 'oriented' else None
     problems = []
     if full.shape != (rows, cols):
         problems.append(f'parent reads back with shape {full.shape}')
@@ -755,6 +772,10 @@ def parent_specs(rng, tier):
     for pt in (['RE32F_IM32F', 'RE16I_IM16I'] if tier == 'quick' else PIXEL_TYPES[:2] * 4):
         specs.append({'rows': rng.randint(5, 30), 'cols': rng.randint(5, 30), 'pixel_type': pt, 'kind': rng.choice(['pfa', 'rma']),
                       'data_seed': rng.getrandbits(30), 'source': 'flat', 'name': 'flat'})
+    # parents whose stored layout is reversed / transposed relative to the image (sensor-format readers)
+    for rev, tr in ([((0,), False), ((1,), False), ((0, 1), True)] if tier == 'quick' else [((0,), False), ((1,), False), ((0, 1), False), ((), True), ((0,), True), ((0, 1), True)]):
+        specs.append({'rows': rng.randint(5, 30), 'cols': rng.randint(5, 30), 'pixel_type': rng.choice(['RE32F_IM32F', 'RE16I_IM16I']), 'kind': rng.choice(['pfa', 'rma']),
+                      'data_seed': rng.getrandbits(30), 'source': 'oriented', 'reverse': list(rev), 'transpose': tr, 'name': 'oriented'})
     # wide parents: the converter's block loop runs more than once (its block size is at least 2**20 bytes)
     for k in range(1 if tier == 'quick' else 4):
         for pt, cols in (('RE32F_IM32F', 30000), ('RE16I_IM16I', 40000), ('AMP8I_PHS8I', 60000)):
